@@ -201,7 +201,10 @@ def _support(spec, ctx):
         # scipy's MLE diverged to a support that is a single point at floating-point resolution
         ctx.note('fitted support narrower than 1e-9 of its location (inconclusive)')
         return
-    F = np.asarray(model.cumulative_distribution(np.array([a - span, a, b, b + span])), dtype=float)
+    # "no mass outside the fitted support": judged a few ulps outside the end points, because a beta with shape
+    # parameter < 1 has a CDF so steep at its end that one ulp of (x - loc) / scale is worth 1e-6 of probability
+    u4 = 4 * np.spacing(max(abs(a), abs(b)))
+    F = np.asarray(model.cumulative_distribution(np.array([a - span, a - u4, b + u4, b + span])), dtype=float)
     ctx.check(abs(F[0]) <= TOL_UNIV and abs(F[1]) <= TOL_UNIV and abs(F[2] - 1) <= TOL_UNIV and abs(F[3] - 1) <= TOL_UNIV,
               'support.bounds', 'C04:%s-mass-outside-support' % fam, lambda: dict(where, bounds=[a, b], cdf=F))
     pout = np.asarray(model.probability_density(np.array([a - span, a - 1e-3 * span, b + 1e-3 * span, b + span])), dtype=float)
